@@ -57,11 +57,18 @@ ReachSet(S) == ReachFrom(S, {})
 \* list them are)
 Pred(n) == {m \in Nodes : ~IsForeign(m) /\ n \in SuccAll(m)}
 
+\* the source's own predecessor relation: a remote repository lists the referrers of a node (manifests whose subject it
+\* is), every other source lists every manifest that links to it
+PredRel(n) == IF g.predsubj THEN {m \in Nodes : g.subj[m] = n} ELSE Pred(n)
+\* with an artifact-type or annotation filter a predecessor is followed exactly when it satisfies the filter
+\* (g.pass[m], all TRUE without a filter)
+PredF(n) == {m \in PredRel(n) : g.pass[m]}
+
 RECURSIVE UpTo(_, _, _)
-\* nodes reachable from S by at most d predecessor steps (d < 0: unbounded)
+\* nodes reachable from S by at most d (followed) predecessor steps (d < 0: unbounded)
 UpTo(S, d, seen) ==
   IF d = 0 \/ S \subseteq seen THEN seen \cup S
-  ELSE UpTo(UNION {Pred(n) : n \in S}, d - 1, seen \cup S)
+  ELSE UpTo(UNION {PredF(n) : n \in S}, d - 1, seen \cup S)
 
 \* nodes with the same bytes as a node of S: a destination keyed by digest
 \* holds them as soon as it holds one of them
